@@ -1,6 +1,6 @@
 """C18 — written output is fully determined by the input, never by the buffer's old bytes (structural clauses)."""
 from mirlib import *
-import t_writeonly, r_handle, r_strsafe, p_c09, p_c10
+import t_writeonly, r_handle, r_strsafe, p_c09, p_c10, r_kernel
 
 MANIFEST = {
     'category': 'other',
@@ -14,8 +14,11 @@ MANIFEST = {
             'spare_capacity_mut() by the String/Vec receivers; (D5) the two wrapper-level places that store output without a handle agree with the '
             'count they report: write_ncr returns exactly the number of contiguous stores it makes for every digit count (shared with C09-D2), and '
             'the BOM-replay helpers hand the remaining input a destination that starts exactly at the count already written and report the sum '
-            '(shared with C10-D1 replay rules). That the bulk ASCII kernels store every unit of the count they return is covered '
-            'only as far as their safe-Rust zip/stride structure shows and is otherwise not decided.',
+            '(shared with C10-D1 replay rules). (D6, R-KERNEL) the bulk ASCII/Latin1 copy kernels store what they count: every continuing iteration over strides hands the current '
+            'source and destination stride (each sub-stride of a double stride with its own twin) to the stride function or stores the '
+            'destination stride, every continuing iteration over single units stores the current source unit into the current destination '
+            'slot, zipped parts are the same part of slices cut to the same length, and the counter advances by exactly the element width. '
+            'That the stride functions themselves (SIMD pack/unpack, array copies) write all 16 units is SIMD/array semantics and trusted.',
     'note': 'Trusted: rustc MIR, mirx, rule library.',
     'technique': 'information-flow rule (no loads from output memory) over all MIR bodies + handle typestate + set_len shape rules',
 }
@@ -43,6 +46,7 @@ def run(rep, facts, tier):
                         rep.ob('C18-D4', name, ok, 'minimally_init is applied to something other than vec.spare_capacity_mut()', sp_str(b.blocks[bi]['tsp']), None, c)
             rep.floor('C18-D4', 'minimally_init call sites', len(mi), 6, c)
         p_c09.write_ncr(rep, f, c)
+        r_kernel.run(rep, f, c, 'R-KERNEL', ['copy'], stride=False)
         for sink in ('utf8', 'utf16'):
             p_c10.helpers(rep, f, c, sink)
     return ('other', MANIFEST['text'], [])
